@@ -59,6 +59,10 @@ func parseRpmHeader(b []byte, off int) (tags map[int]RpmTag, order []int, n int,
 			Count: int(binary.BigEndian.Uint32(ie[12:])),
 		}
 		so := int(int32(binary.BigEndian.Uint32(ie[8:])))
+		if t.Count == 0 {
+			// librpm's header check refuses an entry whose data length is not positive
+			return tags, order, n, fmt.Errorf("rpm: header at %d: tag %d has count 0 (librpm rejects an index entry without data)", off, t.Tag)
+		}
 		if so < 0 || so > len(store) || t.Count < 0 {
 			return tags, order, n, fmt.Errorf("rpm: header at %d: tag %d: offset %d/count %d out of store (%d)", off, t.Tag, so, t.Count, len(store))
 		}
